@@ -4,7 +4,7 @@
  * malloc/calloc/free renamed to counting / failing versions, so exactly the SDK's own allocations are counted and failed
  * (OpenSSL's and libc's are not). The archive member base.o of the library build is then never pulled in by the linker.
  *
- *   sw <mode> <op> <args…>
+ *   sw <mode> <op> <args…>          (swn: the same with the context's pool of released hash objects switched off)
  *       mode: all | every:<s>:<o> (indices o, o+s, …) | multi:<seed>:<sets>:<density> (random sets: index i fails when
  *             mix(seed, set, i) % density == 0)
  *     => N=<allocations of the fault-free run> S0=<status> O0=<digest> | <entry>…
@@ -370,24 +370,36 @@ static int run_vcal(Env *e, char *out) {
 	return res;
 }
 
+static int tree_add(Env *e, KSI_TreeBuilder *tb, int alg, int m, int i, KSI_TreeLeafHandle **lh) {
+	int res; KSI_DataHash *d = NULL; KSI_MetaData *md = NULL; KSI_Utf8String *cid = NULL;
+	if (m > 0 && i % m == m - 1) {
+		char name[32]; snprintf(name, sizeof(name), "client-%d", i);
+		res = KSI_MetaData_new(e->ctx, &md); if (res != KSI_OK) goto cleanup;
+		res = KSI_Utf8String_new(e->ctx, name, strlen(name) + 1, &cid); if (res != KSI_OK) goto cleanup;
+		res = KSI_MetaData_setClientId(md, cid); if (res != KSI_OK) goto cleanup;
+		res = KSI_TreeBuilder_addMetaData(tb, md, i % 3, lh);
+	} else {
+		unsigned char dig[64]; memset(dig, i + 1, sizeof(dig));
+		res = KSI_DataHash_fromDigest(e->ctx, (KSI_HashAlgorithm)alg, dig, KSI_getHashLength((KSI_HashAlgorithm)alg), &d); if (res != KSI_OK) goto cleanup;
+		res = KSI_TreeBuilder_addDataHash(tb, d, i % 2, lh);
+	}
+cleanup:
+	KSI_Utf8String_free(cid); KSI_MetaData_free(md); KSI_DataHash_free(d);
+	return res;
+}
 static int run_tree(Env *e, char *out) {
-	int res, alg = atoi(e->w[0]), n = atoi(e->w[1]), m = atoi(e->w[2]), i; KSI_TreeBuilder *tb = NULL; KSI_TreeLeafHandle **lh = calloc((size_t)n + 1, sizeof(*lh));
-	KSI_DataHash *d = NULL; KSI_MetaData *md = NULL; KSI_Utf8String *cid = NULL; KSI_AggregationHashChain *ch = NULL; unsigned long long h = FNV0;
+	int res, alg = atoi(e->w[0]), n = atoi(e->w[1]), m = atoi(e->w[2]), i, j; KSI_TreeBuilder *tb = NULL; KSI_TreeLeafHandle **lh = calloc((size_t)n + 1, sizeof(*lh));
+	KSI_AggregationHashChain *ch = NULL; unsigned long long h = FNV0;
 	res = KSI_TreeBuilder_new(e->ctx, (KSI_HashAlgorithm)alg, &tb); if (res != KSI_OK) goto cleanup;
 	for (i = 0; i < n; i++) {
-		if (m > 0 && i % m == m - 1) {
-			char name[32]; snprintf(name, sizeof(name), "client-%d", i);
-			res = KSI_MetaData_new(e->ctx, &md); if (res != KSI_OK) goto cleanup;
-			res = KSI_Utf8String_new(e->ctx, name, strlen(name) + 1, &cid); if (res != KSI_OK) goto cleanup;
-			res = KSI_MetaData_setClientId(md, cid); if (res != KSI_OK) goto cleanup;
-			KSI_Utf8String_free(cid); cid = NULL;      /* the setter took its own reference */
-			res = KSI_TreeBuilder_addMetaData(tb, md, i % 3, &lh[i]); if (res != KSI_OK) goto cleanup;
-			KSI_MetaData_free(md); md = NULL;
-		} else {
-			unsigned char dig[64]; memset(dig, i + 1, sizeof(dig));
-			res = KSI_DataHash_fromDigest(e->ctx, (KSI_HashAlgorithm)alg, dig, KSI_getHashLength((KSI_HashAlgorithm)alg), &d); if (res != KSI_OK) goto cleanup;
-			res = KSI_TreeBuilder_addDataHash(tb, d, i % 2, &lh[i]); if (res != KSI_OK) goto cleanup;
-			KSI_DataHash_free(d); d = NULL;
+		res = tree_add(e, tb, alg, m, i, &lh[i]);
+		if (res != KSI_OK) {
+			/* a refused leaf leaves the builder and the leaves accepted so far usable: their chains can be asked for, and the
+			 * same leaf can be added again */
+			for (j = 0; j < i; j++) { KSI_AggregationHashChain *c2 = NULL; KSI_TreeLeafHandle_getAggregationChain(lh[j], &c2); KSI_AggregationHashChain_free(c2); }
+			KSI_TreeLeafHandle_free(lh[i]); lh[i] = NULL;
+			res = tree_add(e, tb, alg, m, i, &lh[i]);
+			if (res != KSI_OK) goto cleanup;
 		}
 	}
 	res = KSI_TreeBuilder_close(tb); if (res != KSI_OK) goto cleanup;
@@ -401,7 +413,7 @@ static int run_tree(Env *e, char *out) {
 	{ const unsigned char *imp = NULL; size_t il = 0; if (tb->rootNode && tb->rootNode->hash) { KSI_DataHash_getImprint(tb->rootNode->hash, &imp, &il); h = fnv(h, imp, il); } }
 	put_digest(out, h, (size_t)n);
 cleanup:
-	KSI_AggregationHashChain_free(ch); KSI_Utf8String_free(cid); KSI_MetaData_free(md); KSI_DataHash_free(d);
+	KSI_AggregationHashChain_free(ch);
 	for (i = 0; i < n; i++) KSI_TreeLeafHandle_free(lh[i]);
 	free(lh);
 	KSI_TreeBuilder_free(tb);
@@ -596,6 +608,8 @@ static const struct op { const char *name; int minargs; int (*setup)(Env *); int
 	{ "pubs", 1, su_none, run_pubs }, { "hmac", 3, su_hmac, run_hmac }, { "async", 4, su_async, run_async }, { "ha", 4, su_async, run_ha }, { "bsig", 3, su_none, run_bsig }, { "vcal", 5, su_ext, run_vcal }, { "parts", 1, su_sig, run_parts },
 };
 
+static int g_nopool;      /* swn: the context does not recycle released hash objects (KSI_OPT_DATAHASH_CACHE_SIZE = 0) */
+
 /* one experiment: new context and inputs, the operation under the armed fault(s), the repeat, everything freed */
 static void experiment(const struct op *op, char **w, int n, int mode, size_t at, unsigned long long seed, unsigned density,
 		int *st, size_t *fired, char *out, int *st2, char *out2, size_t *count, size_t *leak) {
@@ -603,7 +617,7 @@ static void experiment(const struct op *op, char **w, int n, int mode, size_t at
 	memset(&e, 0, sizeof(e)); e.w = w; e.n = n;
 	if (getenv("VERIF_TRACE")) fprintf(stderr, "experiment mode=%d at=%zu seed=%llu\n", mode, at, seed);
 	out[0] = 0; out2[0] = 0; *st = -1; *st2 = -1; *fired = 0; *count = 0;
-	if (KSI_CTX_new(&e.ctx) != KSI_OK || op->setup(&e)) { *st = -2; }
+	if (KSI_CTX_new(&e.ctx) != KSI_OK || (g_nopool && KSI_CTX_setOption(e.ctx, KSI_OPT_DATAHASH_CACHE_SIZE, (void *)(size_t)0) != KSI_OK) || op->setup(&e)) { *st = -2; }
 	else {
 		v_mode = mode; v_at = at; v_seed = seed; v_density = density; v_count = 0; v_fired = 0; v_armed = 1;
 		*st = op->run(&e, out);
@@ -620,7 +634,8 @@ static void do_line(char *work, const char *orig) {
 	static char *w[24]; int n = split_words(work, w, 24), i; const struct op *op = NULL;
 	char o0[64], o[64], o2[64]; int st0, st, st2; size_t fired, N, cnt, leak, k;
 	(void)orig;
-	if (n < 3 || strcmp(w[0], "sw")) { printf("BAD-OP"); return; }
+	if (n < 3 || (strcmp(w[0], "sw") && strcmp(w[0], "swn"))) { printf("BAD-OP"); return; }
+	g_nopool = !strcmp(w[0], "swn");
 	for (i = 0; i < (int)(sizeof(OPS) / sizeof(OPS[0])); i++) if (!strcmp(OPS[i].name, w[2])) op = &OPS[i];
 	if (op == NULL || n - 3 < op->minargs) { printf("BAD-OP"); return; }
 	experiment(op, w + 3, n - 3, 0, 0, 0, 1, &st0, &fired, o0, &st2, o2, &N, &leak);
